@@ -37,7 +37,7 @@ def adtsToRaw (f : Bytes) : Except AdtsErr Bytes :=
   if f.length < adtsHeaderLen f then .error .invalidHeaderLength else
   if byteAt f 2 / 4 % 16 > 12 then .error .invalidSampleRateIndex else
   if adtsChannelConfig f = 0 ∨ adtsChannelConfig f > 7 then .error .invalidChannelConfig else
-  if adtsFrameLength f < adtsHeaderLen f then .error .invalidFrameLength else
+  if adtsFrameLength f ≤ adtsHeaderLen f then .error .invalidFrameLength else
   if adtsFrameLength f > f.length then .error .invalidFrameLength else
   .ok ((f.take (adtsFrameLength f)).drop (adtsHeaderLen f))
 
@@ -46,6 +46,6 @@ def adtsGuards (f : Bytes) : Prop :=
   7 ≤ f.length ∧ (byteAt f 0 = 0xFF ∧ byteAt f 1 / 16 = 0xF) ∧ byteAt f 1 / 8 % 2 = 0 ∧
   byteAt f 1 / 2 % 4 = 0 ∧ adtsHeaderLen f ≤ f.length ∧ byteAt f 2 / 4 % 16 ≤ 12 ∧
   (adtsChannelConfig f ≠ 0 ∧ adtsChannelConfig f ≤ 7) ∧
-  adtsHeaderLen f ≤ adtsFrameLength f ∧ adtsFrameLength f ≤ f.length
+  adtsHeaderLen f < adtsFrameLength f ∧ adtsFrameLength f ≤ f.length
 
 end Muxide
